@@ -11,7 +11,7 @@ def analyse(fam, shape, placement, outcomes):
         if o.rejected or skel.s_parse(o.value):
             continue
         sk = o.value
-        du = skel.s_defuse(sk, extra_known=("E", "SF", "SB", "SU", "SC", "SP", "SX"))
+        du = skel.s_defuse(sk, extra_known=("E", "SF", "SB", "SU", "SC", "SP", "SX", "SW", "SK"))
         try:
             for cn, view, scope, cls in each_class(shape, placement, o):
                 if view.err:
